@@ -262,7 +262,7 @@ int strncmp(const char *a, const char *b, size_t n)
 int strcmp(const char *a, const char *b)
 {
 	__CPROVER_assert(b[0] == '-' && b[1] == 'l' && b[2] == 'h' && b[3] == 'd' && b[4] == '-' && b[5] == 0,
-	                 "strcmp: second argument is LHA_COMPRESS_TYPE_DIR");
+	                 "[stub-limit] strcmp: second argument is LHA_COMPRESS_TYPE_DIR");
 	if (a[0] != b[0]) return (unsigned char) a[0] < (unsigned char) b[0] ? -1 : 1;
 	if (a[1] != b[1]) return (unsigned char) a[1] < (unsigned char) b[1] ? -1 : 1;
 	if (a[2] != b[2]) return (unsigned char) a[2] < (unsigned char) b[2] ? -1 : 1;
